@@ -9,6 +9,7 @@ import (
 	"github.com/bluenviron/gortsplib/v5/pkg/base"
 	"github.com/bluenviron/gortsplib/v5/pkg/description"
 	"github.com/bluenviron/gortsplib/v5/pkg/headers"
+	"github.com/bluenviron/gortsplib/v5/pkg/mikey"
 	"github.com/bluenviron/gortsplib/v5/pkg/sdpunmarshaler"
 )
 
@@ -182,10 +183,22 @@ func (cs *caseRun) reqLine(c int, req *base.Request) string {
 	if req.Method == base.Setup {
 		var km headers.KeyMgmt
 		if err := km.Unmarshal(req.Header["KeyMgmt"]); err == nil {
-			keyMgmt = gortsplib.VerifMikeyAccepted(km.MikeyMessage)
+			keyMgmt = mikeyAccepted(km.MikeyMessage)
 		}
 	}
 	return fmt.Sprintf("hostile req %d %s %s %s %s %d %s %s %s %s %s %s %s %d %s %s",
 		c, methodName(req.Method), b01(cseq), b01(req.URL != nil), sess, path, b01(known), ctype, sdp, trs,
 		setupPath, b01(setupKnown), track, recPath, recCtl, b01(keyMgmt))
+}
+
+// mikeyAccepted asks the library whether mikeyToContext accepts the message.  A panic in there is
+// not the classifier's to report: the same message is on its way to the server, whose session
+// routine runs the same code.
+func mikeyAccepted(msg *mikey.Message) (ok bool) {
+	defer func() {
+		if recover() != nil {
+			ok = true
+		}
+	}()
+	return gortsplib.VerifMikeyAccepted(msg)
 }
